@@ -115,7 +115,7 @@ def _register_parse():
                 ctx.prove("post.n_args_counts_prefixes_plus_one", z3.BoolVal(n_args == n))
                 ctx.prove("post.first_offset_is_first_prefix", z3.BoolVal(first == base))
                 ctx.prove("post.next_offset", z3.BoolVal(nxt == base + 2 * n))
-        harness("blocks._parse_bytes.cpython_oparg[n=%d,%d]" % (n1, n2), props=["C01", "C02"],
+        harness("blocks._parse_bytes.cpython_oparg[n=%d,%d]" % (n1, n2), props=["C01", "C02", "C13"],
                 functions=["code_data._blocks._parse_bytes"], configs="all",
                 notes="two consecutive instructions with %d and %d code units, all byte values: folding equals ceval's 32-bit oparg; state resets between instructions" % (n1, n2))(h)
 
@@ -180,8 +180,18 @@ def keyfn(x):
     return SymInt(KEYF(zint(x)))
 
 
+HASHF = z3.Function("builtin_hash", z3.IntSort(), z3.IntSort())
+
+
+def phash(x):
+    """builtin hash() on a symbolic value: an arbitrary (not injective) function of the value - all that `hash` guarantees"""
+    if isinstance(x, SymInt):
+        return SymInt(HASHF(x.z))
+    return hash(x)
+
+
 def tables_ns():
-    return cached("ToArgs/FromArgs", lambda: rewrite.load(B, ["ToArgs", "FromArgs"], hooks={"len": plen}, tag="ToArgs,FromArgs"))
+    return cached("ToArgs/FromArgs", lambda: rewrite.load(B, ["ToArgs", "FromArgs"], hooks={"len": plen, "hash": phash}, tag="ToArgs,FromArgs"))
 
 
 def _fresh_toargs(ctx, name):
@@ -490,7 +500,7 @@ def _register_parse_step():
                 ctx.prove("instr.first_offset_is_the_first_prefix", Z(first) == i.z - 2 * k)
                 ctx.prove("instr.next_offset", Z(nxt) == i.z + 2)
                 ctx.prove("instr.state_reset", z3.BoolVal(n2 == 0 and a2 == 0))
-        harness("blocks._parse_bytes.loop_step[prefixes=%d]" % k, props=["C01", "C02"], functions=["code_data._blocks._parse_bytes"], configs="all",
+        harness("blocks._parse_bytes.loop_step[prefixes=%d]" % k, props=["C01", "C02", "C13"], functions=["code_data._blocks._parse_bytes"], configs="all",
                 assumes=["induction over the code units is the meta-step; `for i in range(0, len(b), 2)` visits the units in order", "WF: at most three EXTENDED_ARG prefixes (CPython never emits more)"],
                 notes="one loop iteration on a generic unit at a symbolic offset with %d prefixes folded so far: an EXTENDED_ARG unit yields nothing and folds the byte as ceval does (32-bit wrap), "
                       "keeping the state invariant; any other unit yields (opcode, folded|byte, units, first offset, next offset) and resets the state - hence for code of any length" % k)(h)
